@@ -725,6 +725,20 @@ func c28SetupClose(p c28Params, res *c28Result) {
 // client's own reader goroutine when the agent drops the connection). Exactly one of them shuts
 // the client down; a second close of an internal channel would be a panic (process death).
 func c28MultiClose(p c28Params, res *c28Result) {
+	// the trial's own constellation first, then a storm of rounds on fresh clients: 8 callers released
+	// together, with and without the agent hanging up at that moment (seeded C28-h: a Close whose
+	// "already closed?" test and flag flip are not one critical section only fails when two callers
+	// are inside a window of a few instructions)
+	c28MultiCloseOnce(p, res, 2+p.Stops, p.Pre%2 == 0, true)
+	for k := 0; k < c28StormRounds; k++ {
+		c28MultiCloseOnce(p, res, 8, k%2 == 0, false)
+		res.Cnt["close_storm_rounds"]++
+	}
+}
+
+const c28StormRounds = 40
+
+func c28MultiCloseOnce(p c28Params, res *c28Result, n int, agentDrop, first bool) {
 	a, err := c28NewAgent()
 	if err != nil {
 		c28Fail("listen: " + err.Error())
@@ -739,9 +753,11 @@ func c28MultiClose(p c28Params, res *c28Result) {
 	c28Setup(a, cl, s)
 	var start atomic.Bool
 	var wg sync.WaitGroup
-	n := 2 + p.Stops
 	for g := 0; g < n; g++ {
 		spin := (p.Pre * (g + 1) * 37) % 400
+		if !first {
+			spin = (g * p.Pre) % 7
+		}
 		wg.Add(1)
 		go func() {
 			defer wg.Done()
@@ -753,7 +769,7 @@ func c28MultiClose(p c28Params, res *c28Result) {
 			_ = cl.Close()
 		}()
 	}
-	if p.Pre%2 == 0 {
+	if agentDrop {
 		// the agent goes away at the same moment: the reader goroutine closes the client too
 		wg.Add(1)
 		go func() {
@@ -775,8 +791,10 @@ func c28MultiClose(p c28Params, res *c28Result) {
 		res.Viol = append(res.Viol, c28Viol{Key: "not-closed-after-close", Msg: "IsClosed() is false after Close returned"})
 	}
 	res.Cnt["concurrent_close_calls"] += n
-	res.NonTrivial = true
-	res.Sig = fmt.Sprintf("multi-close/%s/cap%d/n%d/agentdrop%v", p.Kind, p.Cap, n, p.Pre%2 == 0)
+	if first {
+		res.NonTrivial = true
+		res.Sig = fmt.Sprintf("multi-close/%s/cap%d/n%d/agentdrop%v", p.Kind, p.Cap, n, agentDrop)
+	}
 }
 
 func c28Flood(p c28Params, res *c28Result) {
